@@ -43,13 +43,14 @@ PROPS["C02"] = dict(engines=["abuffer", "arate", "atwindow", "apartition", "aemi
          "of producers, forwarding coroutine and consumer (Future, native coroutine, synchronous); every recorded schedule of the real node "
          "must be a behaviour of its module.",
     note="Trusted: TLC; virtual-time loop; node-level pipelines source -> node -> recording consumer.")
-PROPS["C03"] = dict(engines=["abuffer", "arate", "atwindow", "apartition", "aemit", "amapasync", "azip", "athread"], design="5/C03",
+PROPS["C03"] = dict(engines=["abuffer", "arate", "atwindow", "apartition", "aemit", "amapasync", "azip", "athread", "asource", "asrcfile"], design="5/C03",
     technique="TLA+ specs of the asynchronous nodes with emit awaitables (putDone/emitDone) checked by TLC incl. liveness + trace validation",
     text="AsyncBuffer.tla models tornado's bounded Queue (parked putters); TLC checks Bound, ParkedNotDone, NoStuckEmit and the liveness "
          "property EmitsComplete under weak fairness; emit_done events of real runs are validated against the model.  Threaded operation: "
          "ThreadSync.tla models sync(): producer threads, the loop thread's FIFO callback queue, the shared thread-local flag; TLC checks "
          "WaitsForConsumer, NoSpuriousError, PerProducerOrder and the liveness property AllReturn; real blocking emits from 2-3 threads "
-         "with consumers completed jointly by the driver are validated against it.",
+         "with consumers completed jointly by the driver are validated against it.  Sources: SourceLoop.tla (OneInFlight) and TextFile.tla "
+         "(OneAtATime: each record's emit is awaited before the next record or read) with the consumer's completions in the traces.",
     note="Trusted: TLC; virtual-time loop for same-loop operation; real threads with event-gated scripts for threaded operation "
          "(no wall-clock assertion can fail on a correct tree: waits are bounded below by events, above by generous time-outs).")
 PROPS["C04"] = dict(engines=["sync", "abuffer", "alatest", "arate", "atwindow", "apartition", "aemit", "amapasync", "acomposite", "adask"], design="5/C04",
